@@ -97,6 +97,7 @@ def run_workers(jobs, timeout):
     """jobs: list of dicts. Returns list of (job, results, rc, log)."""
     rundir = os.path.join(BUILD, "run-%d" % os.getpid())
     os.makedirs(rundir, exist_ok=True)
+    os.makedirs(os.path.join(VERIF, "stuck"), exist_ok=True)
     procs = []
     for i, job in enumerate(jobs):
         jp = os.path.join(rundir, "job%d.json" % i)
@@ -104,6 +105,7 @@ def run_workers(jobs, timeout):
         json.dump(job, open(jp, "w"))
         env = dict(ENV)
         env["SIM_JOB"] = jp
+        env["SIM_STUCK_DIR"] = os.path.join(VERIF, "stuck")
         if "gomaxprocs" in job:
             env["GOMAXPROCS"] = str(job["gomaxprocs"])
         else:
@@ -262,8 +264,13 @@ def check(prop, tier):
 
     runs = []
     errors = []
+    stuck = []
     for job, results, rc, log in out:
         runs.extend(results)
+        if rc == 3:
+            # the worker gave up on a run that made no progress (goroutine dump under stuck/)
+            stuck.append(log[-300:])
+            continue
         if rc != 0:
             errors.append("worker rc=%s: %s" % (rc, log[-1500:]))
         for r in results:
@@ -274,6 +281,10 @@ def check(prop, tier):
     if errors:
         print("\n".join(errors)[:6000])
         die(2, "HARNESS-ERROR property=%s: %d worker/run errors (not a property verdict)" % (prop, len(errors)))
+    for st in stuck:
+        print("STUCK-RUN property=%s: a worker abandoned a run that made no progress (goroutine dump in /verif/stuck/): %s" % (prop, st.strip().splitlines()[-1] if st.strip() else ""))
+    if len(stuck) > 2:
+        die(2, "HARNESS-ERROR property=%s: %d workers got stuck (not a property verdict)" % (prop, len(stuck)))
 
     # determinism re-check on a sample (fresh process, other GOMAXPROCS)
     complete = [r for r in runs if not r.get("aborted")]
